@@ -76,18 +76,15 @@ type dupObs struct {
 // keyTailSingleRound is the stable key of the finding findings/C11-txtail-single-round-reload.
 const keyTailSingleRound = "txtail-reload-single-round"
 
-// dupHardKnown: in a replay (VERIF_REPLAY) or with VERIF_KNOWN_HARD set, and in check runs whose
-// known_findings.json does not list the key as open, the class is an ordinary violation. Otherwise it
-// is recorded in RunResult.Known (the driver prints KNOWN-FINDING) and the run goes on, so that one
-// known class does not end the search of every run that restarts at tracker round 1.
+// dupHardKnown: the class is an ordinary violation unless known_findings.json lists the key as OPEN
+// (the driver passes open keys in VERIF_KNOWN_KEYS) and this is not a replay; only then is it recorded
+// in RunResult.Known (the driver prints KNOWN-FINDING) so that the run goes on. The finding has been
+// fixed in /repo (entry status "fixed", which suppresses nothing): a recurrence is a VIOLATION.
 func dupHardKnown() bool {
 	if os.Getenv("VERIF_REPLAY") != "" || os.Getenv("VERIF_KNOWN_HARD") != "" {
 		return true
 	}
-	if _, set := os.LookupEnv("VERIF_KNOWN_KEYS"); set {
-		return !kernel.KnownKey("C11", keyTailSingleRound)
-	}
-	return false
+	return !kernel.KnownKey("C11", keyTailSingleRound)
 }
 
 // tainted: the reference says this committed transaction is remembered, but the ledger was reopened
